@@ -170,3 +170,33 @@ Proof.
   intros Hn. apply (dec_sim true t bufr_rel bufr_ops lr_ops _ buf bufr_refines).
   unfold bufr_rel, br_size; cbn. split; [lia|]. split; [exact Hn|reflexivity].
 Qed.
+
+(* ---- readers whose Ensure cannot look ahead (StreamReader, FdReader) ------------------------- *)
+(* The list reader with Ensure always succeeding: the shape of a reader over a stream or a file
+   descriptor, which learns that input is missing only when it reads. *)
+Definition lazy_ops : rops LR := {|
+  r_ensure := fun _ r => Ok tt r;
+  r_read1 := r_read1 lr_ops;
+  r_readn := r_readn lr_ops;
+  r_skip := r_skip lr_ops;
+  r_gethandle := r_gethandle lr_ops
+|}.
+
+Lemma lazy_follows_list : rops_rel false eq lr_ops lazy_ops.
+Proof.
+  apply mk_rops_rel; intros; subst; cbn [lr_ops lazy_ops r_ensure r_read1 r_readn r_skip r_gethandle]; rewrite rel_res_unfold.
+  - destruct (_ <=? _); auto.
+  - destruct r2; auto.
+  - destruct (take_n n r2) as [[a b]|]; auto.
+  - destruct (take_n n r2) as [[a b]|]; auto.
+  - auto.
+Qed.
+
+(* every read that succeeds over the list reader succeeds, with the same value and the same
+   continuation, over the reader that cannot look ahead — hence the round trip holds for it too *)
+Theorem dec_lazy_reader t (bs : bytes) v rest : dec t lr_ops bs = Ok v rest -> dec t lazy_ops bs = Ok v rest.
+Proof.
+  intros H. pose proof (dec_sim false t eq lr_ops lazy_ops bs bs lazy_follows_list eq_refl) as S.
+  rewrite rel_res_unfold, H in S. destruct (dec t lazy_ops bs) as [v' r'|e r']; [|contradiction].
+  destruct S as [-> ->]. reflexivity.
+Qed.
